@@ -330,6 +330,38 @@ def remined_chains(seed, directed=False):
     return w.scenario(f"remined-chains-{'directed' if directed else seed}", {"thr": thr, "seed": seed}, cmds)
 
 
+def defect_positions():
+    """Every block defect class at every position of a three-block response (first, middle, last), with
+    announced headers behind it; then the same blocks delivered soundly (C10: blocks before the defect are
+    admitted, the rest of the response is dropped, only an error counter moves; nothing is lost for good)."""
+    S = []
+    for ci, cls in enumerate(gen.BLOCK_DEFECTS + ["stale_time", "duplicate", "orphan"]):
+        for pos in (0, 1, 2):
+            w = _w(300 + ci * 3 + pos, naddr=2)
+            b1 = w.mine(1, ntx=0, coinbase_out=cb(1, 50))
+            good = [w.mine(b1, ntx=0, coinbase_out=cb(2, 50))]
+            good.append(w.mine(good[-1], ntx=1))
+            good.append(w.mine(good[-1], ntx=1))
+            later = w.mine(good[-1], ntx=0)
+            if cls == "stale_time":
+                par = ([b1] + good)[pos]
+                bad = item(w.mine(par, ntx=0, time=w.mtp(par)))
+            elif cls == "duplicate":
+                bad = item(b1)
+            elif cls == "orphan":
+                bad = item(w.mine(later, ntx=0))          # its parent has not been delivered
+            else:
+                bad = item(good[min(pos, 2)], cls)
+            items = [item(b) for b in good]
+            items.insert(pos, bad)
+            probe = [q("info"), q("headers", s=0, e=-1), q("utxos", addr=1, mc=-1), q("balance", addr=2, mc=0)]
+            cmds = [{"c": "tick", "dt": 100000}, {"c": "offer", "initial": complete([b1])}, {"c": "hb"}, {"c": "hb"}]
+            cmds += [{"c": "offer", "initial": complete(items, [later])}, {"c": "hb"}, {"c": "hb"}] + probe
+            cmds += [{"c": "offer", "initial": complete(good + [later])}, {"c": "hb"}, {"c": "hb"}, {"c": "hb"}] + probe
+            S.append(w.scenario(f"defect-{cls}-at-{pos}", {"thr": 3, "seed": 300 + ci * 3 + pos, "gate": False}, cmds))
+    return S
+
+
 def directed(pid, tier="quick"):
     S = []
     if pid in ("C01", "C05", "C06"):
@@ -344,6 +376,8 @@ def directed(pid, tier="quick"):
         S += [upgrade_points()]
     if pid in ("C13", "C10"):
         S += [partial_split_points()]
+    if pid == "C10":
+        S += defect_positions()
     if pid == "C14":
         S += [gate_heavy_short()]
     if pid in ("C14", "C10", "C20"):
@@ -889,20 +923,26 @@ def enum_trees(tier, seed):
 # ---------------------------------------------------------------------------------------------
 # C15: more than 10,000 fee-paying transactions (thorough tier)
 # ---------------------------------------------------------------------------------------------
-def fee_cut_history(seed=1, per_block=3400, nblocks=4):
+def fee_cut_history(seed=1, per_block=3400, nblocks=4, upgrade_before=None, distinct=False):
     """Blocks with thousands of one-input transactions.  All transactions have the same shape (same
     vsize); the oldest block that straddles the 10,000 cut pays one uniform fee, so that the statement's
-    freedom about WHICH of its transactions count cannot matter."""
+    freedom about WHICH of its transactions count cannot matter.
+    `upgrade_before` = k: an upgrade just before the k-th spending block is delivered, so that the percentiles
+    are recomputed from block bodies of blocks received before the upgrade (no insertion-time fee rates), with the
+    cut inside such a block.  `distinct`: every transaction of the newer blocks pays a different fee, so that the
+    sorted bag is strictly increasing there and one transaction more or less shifts every percentile above it."""
     rng = random.Random(seed)
     w = World(rng, net="regtest", naddr=2, prefix_pair=False)
     total = per_block * nblocks
+    fund_value = 100000 if distinct else 1000
+    nextfee = [7]
     # funding: coinbases with many outputs
     fund = []
     parent = 1
     left = total
     while left > 0:
         k = min(left, 2500)
-        outs = [cb(1, 1000) for _ in range(k)]
+        outs = [cb(1, fund_value) for _ in range(k)]
         tid = w.new_tx([], outs)
         bid = len(w.blocks) + 1
         ledger = dict(w.blocks[parent]["ledger"])
@@ -926,7 +966,10 @@ def fee_cut_history(seed=1, per_block=3400, nblocks=4):
             o = fund[pos]
             pos += 1
             fee = rng.choice(fees)
-            txs.append(w.new_tx([o], [cb(2, 1000 - fee)], w=False))
+            if distinct and bi > 0:
+                nextfee[0] += 1
+                fee = nextfee[0]
+            txs.append(w.new_tx([o], [cb(2, fund_value - fee)], w=False))
         bid = len(w.blocks) + 1
         t = w.blocks[parent]["time"] + 600
         w.blocks[bid] = {"id": bid, "parent": parent, "height": w.blocks[parent]["height"] + 1, "time": t, "txs": txs, "diff": 1, "ledger": {}}
@@ -935,6 +978,9 @@ def fee_cut_history(seed=1, per_block=3400, nblocks=4):
         parent = bid
     allb = [b["id"] for b in w.block_list]
     for b in allb:
+        if upgrade_before is not None and b == spend_blocks[upgrade_before]:
+            cmds.append({"c": "upgrade", "d": {}})
+            cmds.append(q("fees"))
         cmds.append({"c": "offer", "initial": complete([b])})
         cmds.append({"c": "hb"})
         cmds.append({"c": "hb"})
@@ -944,7 +990,7 @@ def fee_cut_history(seed=1, per_block=3400, nblocks=4):
     cmds.append({"c": "upgrade", "d": {"lazy": True}})
     cmds.append({"c": "hb"})
     cmds.append(q("fees"))
-    return w.scenario(f"fee-cut-{seed}", {"thr": 100, "seed": seed, "book": False, "lazy": False}, cmds)
+    return w.scenario(f"fee-cut-{seed}-{per_block}x{nblocks}-u{upgrade_before}", {"thr": 100, "seed": seed, "book": False, "lazy": False}, cmds)
 
 
 # ---------------------------------------------------------------------------------------------
